@@ -1,6 +1,7 @@
 mod batch;
 mod ber;
 mod client;
+mod estab;
 mod exec;
 mod gen;
 mod io;
